@@ -106,7 +106,11 @@ func c27(c *Ctx) {
 		c.Funcs[fn] = true
 		fx := stackEffect(fn, env, 0)
 		if fx.Undecided != "" {
-			c.Undecided(id+"/effect", b.Pos, fx.Undecided)
+			if strings.Contains(fx.Undecided, "no dominating Stack.len() check") {
+				c.Bad(id+"/effect", b.Pos, "STACK UNDERFLOW possible: "+fx.Undecided)
+			} else {
+				c.Undecided(id+"/effect", b.Pos, fx.Undecided)
+			}
 			continue
 		}
 		halts := len(fx.Deltas) == 0 // only halting exits (STOP/RETURN/REVERT/SELFDESTRUCT/INVALID): the stack is discarded
